@@ -60,6 +60,29 @@ fn check_borrows(ctx: &mut Ctx, input: &[u8], what: &str) {
     }
 }
 
+/// an owned byte buffer whose Deserialize impl asks for `deserialize_byte_buf` (what serde_bytes::ByteBuf,
+/// CString and bytes::Bytes do): the claimed length must not be allocated before the bytes are there
+#[derive(Debug, PartialEq)]
+pub struct OwnedBytes(pub Vec<u8>);
+impl<'de> serde::Deserialize<'de> for OwnedBytes {
+    fn deserialize<D: serde::Deserializer<'de>>(d: D) -> Result<Self, D::Error> {
+        struct V;
+        impl<'de> serde::de::Visitor<'de> for V {
+            type Value = OwnedBytes;
+            fn expecting(&self, f: &mut std::fmt::Formatter) -> std::fmt::Result {
+                write!(f, "bytes")
+            }
+            fn visit_bytes<E: serde::de::Error>(self, v: &[u8]) -> Result<OwnedBytes, E> {
+                Ok(OwnedBytes(v.to_vec()))
+            }
+            fn visit_byte_buf<E: serde::de::Error>(self, v: Vec<u8>) -> Result<OwnedBytes, E> {
+                Ok(OwnedBytes(v))
+            }
+        }
+        d.deserialize_byte_buf(V)
+    }
+}
+
 macro_rules! concrete {
     ($name:expr, $bytes:expr, $($n:literal => $t:ty, $k:expr);* $(;)?) => {
         match $name {
@@ -118,6 +141,8 @@ fn decode_concrete_framed(name: &str, bytes: &[u8]) -> Option<usize> {
         "pair" => (Vec<u16>, String), 64;
         "vec_opt" => Vec<Option<u64>>, 128;
         "bytebuf" => (u8, Vec<u8>), 16;
+        "ownedbytes" => OwnedBytes, 16;
+        "pair_ownedbytes" => (u8, OwnedBytes, OwnedBytes), 16;
     )
 }
 
@@ -134,6 +159,8 @@ fn decode_concrete_io(name: &str, bytes: &[u8], scratch: &mut [u8]) -> Option<(R
         "pair" => (Vec<u16>, String), 64;
         "vec_opt" => Vec<Option<u64>>, 128;
         "bytebuf" => (u8, Vec<u8>), 16;
+        "ownedbytes" => OwnedBytes, 16;
+        "pair_ownedbytes" => (u8, OwnedBytes, OwnedBytes), 16;
     )
 }
 
@@ -150,9 +177,12 @@ fn decode_concrete(name: &str, bytes: &[u8]) -> Option<(Result<usize, &'static s
         "pair" => (Vec<u16>, String), 64;
         "vec_opt" => Vec<Option<u64>>, 128;
         "bytebuf" => (u8, Vec<u8>), 16;
+        "ownedbytes" => OwnedBytes, 16;
+        "pair_ownedbytes" => (u8, OwnedBytes, OwnedBytes), 16;
     )
 }
-pub const CONCRETE: [(&str, &str); 10] = [
+pub const CONCRETE: [(&str, &str); 12] = [
+    ("ownedbytes", "bytes"), ("pair_ownedbytes", "(tuple u8 bytes bytes)"),
     ("vec_u8", "(seq u8)"), ("vec_u64", "(seq u64)"), ("vec_u128", "(seq u128)"), ("string", "str"),
     ("vec_string", "(seq str)"), ("vec_vec_u16", "(seq (seq u16))"), ("vec_pair", "(seq (tuple u8 u32))"),
     ("pair", "(tuple (seq u16) str)"), ("vec_opt", "(seq (option u64))"), ("bytebuf", "(tuple u8 (seq u8))"),
